@@ -8,6 +8,7 @@ import NxsModel.Driver.Stream
 import NxsModel.Driver.Reasm
 import NxsModel.Driver.Config
 import NxsModel.Driver.Handshake
+import NxsModel.Driver.Fanout
 open Nxs Nxs.Driver
 
 def dispatch (toks : List String) : String :=
@@ -22,6 +23,7 @@ def dispatch (toks : List String) : String :=
   | "reasm" :: rest => (reasmOp rest).getD "bad-op"
   | "cfg" :: rest => (cfgOp rest).getD "bad-op"
   | "hs" :: rest => (hsOp rest).getD "bad-op"
+  | "fan" :: rest => (fanOp rest).getD "bad-op"
   | _ => "bad-op"
 
 partial def loop (h : IO.FS.Stream) (out : IO.FS.Stream) : IO Unit := do
